@@ -1,11 +1,11 @@
 use std::{fs::OpenOptions, io::Write};
 
+#[cfg(feature = "verif")]
+use crate::verif_locks::RwLock;
 use emmylua_code_analysis::{DiagnosticCode, FileId, load_configs_raw};
 use lsp_types::{Command, Range};
 use serde::{Deserialize, Serialize};
 use serde_json::Value;
-#[cfg(feature = "verif")]
-use crate::verif_locks::RwLock;
 #[cfg(not(feature = "verif"))]
 use tokio::sync::RwLock;
 
